@@ -41,7 +41,7 @@ func (p *printer) write(b []byte) {
 	}
 
 	if p.state == PrinterStateHTML {
-		if !bytes.HasPrefix(b, []byte("<?")) {
+		if !bytes.HasPrefix(b, []byte("<?")) && !(p.last == nil && bytes.HasPrefix(b, []byte("#!"))) {
 			p.output.Write([]byte("<?php "))
 		}
 		p.state = PrinterStatePHP
